@@ -88,7 +88,8 @@ class Fn:
         P = cxx2c.Printer(self.cname, self.types, self.calls, self.members, self.hooks, self.self_struct,
                           self.aggregates, self.stmt_hooks, self.uf_float, opaque=self.opaque, dtors=self.dtors)
         P.default_file = loc.get('file') or loc.get('expansionLoc', {}).get('file') or loc.get('spellingLoc', {}).get('file') or astload.resolve_tu(self.tu)
-        P.field_init = lambda cls, fld: astload.field_initializer(self.tu, cls, fld)
+        P.field_init = lambda cls, fld, d=d: (astload.field_initializer(self.tu, cls, fld) or
+                                               (astload.field_default_init(self.tu, d, fld) if d.get('kind') == 'CXXConstructorDecl' else None))
         extra = list(self.extra_params)
         if self.captures:
             # captured variables become parameters: by-reference captures are pointers (uses print as (*name), so writes
@@ -119,8 +120,9 @@ class Target:
     """a CBMC/DFCC verification unit: one enforced contract over extracted functions"""
 
     def __init__(self, name, fns, prelude, enforce=None, replace=(), harness=None, loops=None, checks=None,
-                 source=None, note='', cbmc_flags=(), timeout=None, enforce_none=False, defines=(), unwind=None):
+                 source=None, note='', cbmc_flags=(), timeout=None, enforce_none=False, defines=(), unwind=None, enums=()):
         self.defines = list(defines)
+        self.enums = list(enums)      # (tu, qualified enum name): NVE_<enum>_<enumerator> constants are generated from /repo's AST
         self.name = name
         self.fns = fns
         self.prelude = prelude            # path relative to /verif
@@ -200,7 +202,13 @@ class Target:
             if enforced_printer is None:
                 raise ExtractionError(f'{self.name}: no harness and no enforced function')
             harness = self.auto_harness(enforced_printer)
-        out = ['#include "nv_base.h"', f'#include "{os.path.join(VERIF, self.prelude)}"']
+        out = ['#include "nv_base.h"']
+        for tu, qn in self.enums:
+            en = qn.split('::')[-1]
+            consts = astload.enum_constants(tu, qn)
+            out.append(f'#define NV_ENUM_{en} 1\nenum {{ ' + ', '.join(f'NVE_{en}_{c} = {v}' for c, v in consts) + ' };')
+            info.setdefault('enums_from_source', {})[qn] = consts
+        out.append(f'#include "{os.path.join(VERIF, self.prelude)}"')
         for f in present:
             out.append(f'#ifndef NV_CONTRACT_{f.cname}\n#define NV_CONTRACT_{f.cname}\n#endif')
         for m in loops:
